@@ -7,6 +7,7 @@ exit 2  UNDECIDED (lost anchor, unsupported construct, erasure mismatch, canary 
 """
 import os, sys, json, re, time, subprocess, tempfile, shutil, hashlib, argparse, atexit
 
+sys.modules.setdefault('check', sys.modules[__name__])   # units do `import check`: must be THIS module (same Undecided class)
 HERE = os.path.dirname(os.path.abspath(__file__))
 VERIF = os.path.dirname(HERE)
 sys.path.insert(0, HERE)
